@@ -376,7 +376,7 @@ func C11(r *core.Report) {
 		"R3 MarshalCBOR writes each field at the index UnmarshalCBOR reads it from; presence accessors (HasX/GetX) depend only on nil-ness. " +
 		"R4 no cbor.DecOptions literal in the decoder packages lowers MaxArrayElements / MaxMapPairs / MaxNestedLevels below the library defaults (the fast decoders must accept every list length the reference decoder accepts). " +
 		"R6 every link produced by the hand-written decoders carries the CID that the library parser (cid.CidFromBytes / Cast / Decode) read from the link's own bytes; no CID is assembled from parts with a fixed codec or version. " +
-		"R8 every success return of a _Decode*Fast function yields the node that UnmarshalCBOR of the whole input filled: no second decoding path in front of the positional decoder. Not decided: integer sign/overflow, list edge cases, byte-level equality with the bindnode decoder."
+		"R8 every success return of a _Decode*Fast function yields the node that UnmarshalCBOR of the whole input filled: no second decoding path in front of the positional decoder. R9 whether a positional decoder reads tuple position k does not depend on the value of another field of the node: no arr.Get(k) sits under a test on the receiver's fields or accessors (other than tests that only lead to errors). Not decided: integer sign/overflow, list edge cases, byte-level equality with the bindnode decoder."
 	c11DecoderLimits(r)
 	c11NoExtraRejection(r)
 	p := r.Prog
@@ -495,6 +495,8 @@ func C11(r *core.Report) {
 	c11PresenceAccessors(r)
 	c11LinksFromLibraryParser(r)
 	c11FastDecodersGoThroughUnmarshal(r)
+	c11FieldsDecodedIndependently(r)
+	r.Floor("C11.R9", 3)
 	r.Floor("C11.R8", 3)
 	r.Floor("C11.R6", 1)
 	r.Floor("C11.R1", 30)
